@@ -6,6 +6,7 @@ import (
 	"io"
 	"log/slog"
 	"testing"
+	"testing/synctest"
 	"time"
 
 	"github.com/prometheus/client_golang/prometheus"
@@ -73,5 +74,70 @@ func TestNewInhibitorOverExistingAlerts(t *testing.T) {
 			alerts.Close()
 			sub.Case(vf.Digest(K, round), K >= 40)
 		}
+	}
+}
+
+// The inhibitor keeps, per rule, a cache of source alerts that is garbage collected every 15 minutes
+// on its own goroutine, and an index over it that the collector and the ingestion path both maintain.
+// A source that resolved, is being collected, and fires again at that very moment must count as soon
+// as both have finished: the verdict depends only on the set of currently firing alerts. Virtual
+// time puts the re-fire exactly on the collector's tick (both goroutines become runnable at the same
+// instant and run on different Ps); a large cache stretches the collector's critical path. The
+// oracle is independent of which of the two wins.
+func TestSourceRefiresDuringCacheGC(t *testing.T) {
+	run := vf.Cur()
+	sub := run.Sub("source-refires-during-cache-gc", "real provider + inhibitor in a virtual-time bubble; the rule's source cache holds 20000 unrelated firing sources; source S (its own equal-label value) resolves two minutes before a collector tick and fires again EXACTLY at the tick instant (the collector goroutine and the ingestion goroutine run concurrently), for 6 consecutive ticks; 5 ms and 1 s after each tick the target of S must be inhibited (S is firing in the provider; the verdict may not depend on who won); non-trivial = every case; distinct by (round)", 2)
+	logger := slog.New(slog.NewTextHandler(io.Discard, nil))
+	rounds := run.N(3, 40)
+	for round := 0; round < rounds; round++ {
+		synctest.Test(t, func(t *testing.T) {
+			alerts, err := mem.NewAlerts(context.Background(), 100*time.Hour, 0, nil, logger, eventrecorder.NopRecorder(), prometheus.NewRegistry(), featurecontrol.NoopFlags{})
+			if err != nil {
+				t.Fatal(err)
+			}
+			defer alerts.Close()
+			start := time.Now()
+			mk := func(name, cluster string, end time.Time) *alert.Alert {
+				a := &alert.Alert{}
+				a.Labels = commonmodel.LabelSet{"alertname": commonmodel.LabelValue(name), "cluster": commonmodel.LabelValue(cluster)}
+				a.StartsAt, a.EndsAt, a.UpdatedAt = start.Add(-time.Minute), end, time.Now()
+				return a
+			}
+			var batch []*alert.Alert
+			for k := 0; k < 20000; k++ {
+				batch = append(batch, mk("Source", fmt.Sprintf("c%d", k), start.Add(50*time.Hour)))
+			}
+			batch = append(batch, mk("Source", "x", start.Add(50*time.Hour)))
+			if err := alerts.Put(context.Background(), batch...); err != nil {
+				t.Fatal(err)
+			}
+			rules := []amcommoncfg.InhibitRule{{SourceMatchers: realMatchers([]model.Matcher{{Name: "alertname", Op: "=", Value: "Source"}}), TargetMatchers: realMatchers([]model.Matcher{{Name: "alertname", Op: "=", Value: "Target"}}), Equal: []string{"cluster"}}}
+			inh := inhibit.NewInhibitor(alerts, rules, logger, eventrecorder.NopRecorder())
+			t0 := time.Now() // the collector's ticker starts now: ticks at t0 + k*15m
+			go inh.Run()
+			inh.WaitForLoading()
+			defer inh.Stop()
+			target := commonmodel.LabelSet{"alertname": "Target", "cluster": "x"}
+			for k := 1; k <= 6; k++ {
+				tick := t0.Add(time.Duration(k) * 15 * time.Minute)
+				time.Sleep(time.Until(tick.Add(-2 * time.Minute)))
+				if err := alerts.Put(context.Background(), mk("Source", "x", time.Now())); err != nil { // resolves
+					t.Fatal(err)
+				}
+				time.Sleep(time.Until(tick))
+				if err := alerts.Put(context.Background(), mk("Source", "x", start.Add(50*time.Hour))); err != nil { // fires again
+					t.Fatal(err)
+				}
+				for _, d := range []time.Duration{5 * time.Millisecond, time.Second} {
+					time.Sleep(time.Until(tick.Add(d)))
+					sub.Count("verdicts_after_a_tick", 1)
+					if !inh.Mutes(context.Background(), target) {
+						sub.Violation("target-not-inhibited-after-its-source-fired-again-during-cache-gc", map[string]any{"round": round, "tick": k, "read_after_the_tick": d.String(), "cache_size": 20001})
+						return
+					}
+				}
+			}
+		})
+		sub.Case(vf.Digest(round), true)
 	}
 }
